@@ -24,6 +24,7 @@ pub mod cmd_lcd;
 pub mod cmd_dma;
 pub mod cmd_irq;
 pub mod cmd_machine;
+pub mod cmd_bus;
 
 fn main() {
   let args: Vec<String> = std::env::args().collect();
@@ -38,6 +39,10 @@ fn main() {
     "dma-trace" => cmd_dma::trace(&args[2..]),
     "irq" => cmd_irq::run(&args[2..]),
     "machine" => cmd_machine::run(&args[2..]),
+    "mbc" => cmd_bus::mbc(&args[2..]),
+    "bus-crash" => cmd_bus::crash(&args[2..]),
+    "bus-sweep" => cmd_bus::sweep(&args[2..]),
+    "bus-trace" => cmd_bus::trace(&args[2..]),
     "version" => println!("gbv jit={}", cfg!(feature = "jit")),
     _ => { eprintln!("usage: gbv <command> ..."); std::process::exit(2); }
   }
